@@ -739,7 +739,9 @@ def run_cases(chk, cases):
         try:
             impls.append(run_configure(c) if c["kind"] == "configure" else run_human(c) if c["kind"] == "human" else run_impl(c))
         except Exception as e:  # noqa: BLE001 - the implementation raised on the history: reported, the check goes on
-            impls.append({"raised": f"{type(e).__name__}: {e}"})
+            import traceback
+
+            impls.append({"raised": f"{type(e).__name__}: {e}", "traceback": traceback.format_exc()[-2500:]})
     exprs = []
     for c, im in zip(cases, impls):
         exprs += ["true"] if ("raised" in im or "configure" in im) else exprs_human(c, im) if c["kind"] == "human" else model_exprs(c, im)
@@ -749,11 +751,17 @@ def run_cases(chk, cases):
         if "raised" in im:
             # record_mean on a key that holds a string (mean_defined = false in the model) is a TypeError of the caller, not a violation
             results.append([] if (mean_on_string(c) and im["raised"].startswith("TypeError")) else
-                           [("oracle-implementation-raises", "the implementation raises on a legal history: " + im["raised"])])
+                           [("oracle-implementation-raised", "the implementation raises on a legal history: " + im["raised"])])
         elif "configure" in im:
             results.append([("oracle-configure", k) for k, ok in im["configure"].items() if not ok])
         else:
-            results.append(compare_human(c, im, [v]) if c["kind"] == "human" else compare(c, im, [v]))
+            try:
+                results.append(compare_human(c, im, [v]) if c["kind"] == "human" else compare(c, im, [v]))
+            except Exception as e:  # noqa: BLE001 - the files / values cannot even be decoded
+                import traceback
+
+                im["traceback"] = traceback.format_exc()[-2500:]
+                results.append([("oracle-implementation-raised", f"the implementation's output cannot be compared (unexpected shape / missing file): {type(e).__name__}: {e}")])
     return impls, results
 
 
@@ -797,7 +805,7 @@ def main():
                 continue
             # known findings are reported from the fixed corpus inputs (first occurrence); anything else from wherever it shows
             reported.add(full)
-            chk.violation(full, msg, {"case": c, "problems": probs[:8], "correspondence": "harness/c20.py vs Model.Logger.c20_check / Model.Csv.csv_run"},
+            chk.violation(full, msg, {"case": c, "problems": probs[:8], "traceback": im.get("traceback"), "correspondence": "harness/c20.py vs Model.Logger.c20_check / Model.Csv.csv_run"},
                           found_input=is_oracle)
         if len([s for s in reported if s not in KNOWN]) >= 3:
             break
